@@ -508,7 +508,9 @@ def gen_crps_decomp(rng, tier):
     for n in (1, 2, 3, 5):
         for m in (1, 2, 3, 5):
             for _ in range(5):
-                out.append([n, m, 0, rng.choice([0, 0, 1]), [rng.choice(vals) for _ in range(n)], [rng.choice(vals) for _ in range(n * m)],
+                # data in any unit: ordinary, very small and very large magnitudes (dyadic factors keep the lattice exact)
+                sc = rng.choice([1.0, 1.0, 2.0 ** -40, 2.0 ** 30])
+                out.append([n, m, 0, rng.choice([0, 0, 1]), [sc * rng.choice(vals) for _ in range(n)], [sc * rng.choice(vals) for _ in range(n * m)],
                             [0.25] * n, [7.0] * ((m + 1) * 7), [0.0] * 5])
     return out
 
